@@ -15,6 +15,7 @@ the window checks, nil-guard shape facts, tuning constants) through the model.
 import Uquic.Proofs.FlowMono
 import Uquic.Proofs.FlowOk
 import Uquic.Proofs.FlowAux
+import Uquic.Model.FlowInit
 
 set_option linter.unusedVariables false
 
@@ -412,6 +413,49 @@ theorem abandon_credits_unread {s : State} (h : Reach s) {id : Nat} {st : Stream
   · simp only [Stream.abandon]; split <;> rfl
   · simp only [step, stepT, hs, Stream.abandon, Conn.addBytesRead, Base.addBytesRead]
     split <;> simp <;> omega
+
+/-! ## 6b. a new stream starts with the limits the two endpoints advertised for its kind -/
+
+open Uquic.Model.FlowInit in
+/-- **initial_windows_match_parameters.** For every stream id and either perspective, the send
+    window `Conn.newFlowController` seeds is the peer parameter RFC 9000 §18.2 assigns to that kind
+    of stream (we opened it: the peer's `…_bidi_remote`; the peer opened it: the peer's
+    `…_bidi_local`; unidirectional: `…_uni`), `streamsMap.HandleTransportParameters` applies the same
+    parameters to outgoing streams that are already open, and the receive window it seeds is the
+    parameter we advertised for that kind of stream.  (Depends on the regenerated facts about which
+    field each branch of the closure reads.) -/
+theorem initial_windows_match_parameters (weAreClient : Bool) (peer : Params) (cfg : Config) (id : Nat) :
+    newFlowControllerSendWindow weAreClient peer id = rfcSendLimit weAreClient peer id ∧
+    (byClient id = weAreClient → isUni id = false →
+      peer.field Uquic.Gen.Flowcontrol.smapOutgoingBidiField = rfcSendLimit weAreClient peer id) ∧
+    (byClient id = weAreClient → isUni id = true →
+      peer.field Uquic.Gen.Flowcontrol.smapOutgoingUniField = rfcSendLimit weAreClient peer id) ∧
+    ∃ ours rw, advertised cfg = some ours ∧ newFlowControllerReceiveWindow cfg = some rw ∧
+      rw.1 = rfcReceiveLimit weAreClient ours id ∧ ours.maxData = cfg.initialConnectionReceiveWindow := by
+  have h4 : id % 4 = 0 ∨ id % 4 = 1 ∨ id % 4 = 2 ∨ id % 4 = 3 := by omega
+  refine ⟨?_, ?_, ?_, ?_⟩
+  · unfold newFlowControllerSendWindow rfcSendLimit isUni byClient Params.field
+    simp only [Uquic.Gen.Flowcontrol.newFCOwnBidiField, Uquic.Gen.Flowcontrol.newFCPeerBidiField,
+      Uquic.Gen.Flowcontrol.newFCUniField]
+    cases weAreClient <;> rcases h4 with h | h | h | h <;>
+      (have h2 : id % 2 = 0 ∨ id % 2 = 1 := by omega) <;> rcases h2 with h2 | h2 <;>
+      first | omega | simp [h, h2]
+  · unfold rfcSendLimit isUni byClient Params.field
+    simp only [Uquic.Gen.Flowcontrol.smapOutgoingBidiField]
+    cases weAreClient <;> rcases h4 with h | h | h | h <;>
+      (have h2 : id % 2 = 0 ∨ id % 2 = 1 := by omega) <;> rcases h2 with h2 | h2 <;>
+      first | omega | simp [h, h2]
+  · unfold rfcSendLimit isUni byClient Params.field
+    simp only [Uquic.Gen.Flowcontrol.smapOutgoingUniField]
+    cases weAreClient <;> rcases h4 with h | h | h | h <;>
+      (have h2 : id % 2 = 0 ∨ id % 2 = 1 := by omega) <;> rcases h2 with h2 | h2 <;>
+      first | omega | simp [h, h2]
+  · refine ⟨_, _, by simp [advertised, Uquic.Gen.Flowcontrol.advertisedWindowsFromConfig]; rfl,
+      by simp [newFlowControllerReceiveWindow, Uquic.Gen.Flowcontrol.newFCReceiveWindowFromConfig]; rfl, ?_, rfl⟩
+    unfold rfcReceiveLimit
+    simp only []
+    repeat' split
+    all_goals rfl
 
 /-! ## 7. no panic with the callback the connection installs -/
 
